@@ -174,3 +174,61 @@ def separate_charts_share_no_state(rep):
 def _r_two(case, what):
     hit = [d for w, d in _two_charts_fail(case) if w == what]
     return (bool(hit), hit[0] if hit else "passes")
+
+
+def _bms_write_fields_fail(case):
+    """write() of a BMS chart leaves its dataclass fields alone - also for a chart with holds and no LN end marker."""
+    import copy
+    import dataclasses
+    import warnings
+    from reamber.bms.BMSMap import BMSMap
+    from reamber.bms.BMSHit import BMSHit
+    from reamber.bms.BMSHold import BMSHold
+    from reamber.bms.BMSBpm import BMSBpm
+    from reamber.bms.lists.notes.BMSHitList import BMSHitList
+    from reamber.bms.lists.notes.BMSHoldList import BMSHoldList
+    from reamber.bms.lists.BMSBpmList import BMSBpmList
+    from reamber.bms.BMSChannel import BMSChannel
+
+    m = BMSMap()
+    m.bpms = BMSBpmList([BMSBpm(0, 120)])
+    m.hits = BMSHitList([BMSHit(0, 1)] if case["hits"] else [])
+    m.holds = BMSHoldList([BMSHold(1000, 2, 500)] if case["holds"] else [])
+    m.ln_end_channel = case["lnobj"].encode()
+    m.title, m.artist, m.version = case["title"], b"a", b"1"
+    before = {f.name: copy.deepcopy(getattr(m, f.name)) for f in dataclasses.fields(m) if f.name != "objs"}
+    with warnings.catch_warnings():
+        warnings.simplefilter("ignore")
+        try:
+            m.write(getattr(BMSChannel, case["layout"]))
+        except Exception:
+            pass  # whether it can be written is C05's matter; the input must be untouched either way
+    after = {f.name: getattr(m, f.name) for f in dataclasses.fields(m) if f.name != "objs"}
+    bad = [k for k in before if before[k] != after[k] or type(before[k]) is not type(after[k])]
+    return [("write_leaves_chart_fields_alone", f"BMSMap.write changed the field(s) {bad}: {[(before[k], after[k]) for k in bad]}")] if bad else []
+
+
+@bounded("C14", note="BMSMap.write leaves the chart's dataclass fields alone (charts with / without holds, with / without an LN end marker, str and bytes titles)")
+def bms_write_leaves_fields_alone(rep):
+    rep.bound = "2 x 2 x 3 x 2 x 2 charts"
+    rep.rule = "a case is (hits?, holds?, LN marker, title type, layout); all non-trivial"
+    rep.exhaustive = True
+    for hits in (True, False):
+        for holds in (True, False):
+            for lnobj in ("", "ZZ", "0Z"):
+                for title in ("t", b"t"):
+                    for layout in ("BME", "PMS"):
+                        if not hits and not holds:
+                            continue
+                        case = dict(hits=hits, holds=holds, lnobj=lnobj, title=title if isinstance(title, str) else "bytes:t", layout=layout)
+                        run = dict(case, title=title)
+                        rep.case(case)
+                        for what, d in _bms_write_fields_fail(run):
+                            rep.fail(what, case, d)
+
+
+@replayer("bms_write_leaves_fields_alone")
+def _r_bmsw(case, what):
+    run = dict(case, title=b"t" if case["title"].startswith("bytes:") else case["title"])
+    hit = [d for w, d in _bms_write_fields_fail(run) if w == what]
+    return (bool(hit), hit[0] if hit else "passes")
